@@ -1,6 +1,6 @@
 """development helper: run component correspondence for given families and print the summary"""
 import sys, json
-import common as C, corr_comp as K, corr_star, corr_kinds, corr_net
+import common as C, corr_comp as K, corr_star, corr_kinds, corr_net, corr_params
 rep = C.Report("DEV")
 for fam in sys.argv[2:]:
     K.correspondence(rep, fam, int(sys.argv[1]), 14 if fam not in ('star','kind','catch','net') else 8, maxdigits=30 if fam in ('star','kind','catch','net') else None)
